@@ -76,11 +76,15 @@ func VerifC02_cutoff_and_C01_dep() {
 	w := newWorld()
 	viaAlias := sym.Choice("alias_hops", 3) // 0: T depends on D directly, 1: through one alias, 2: through two
 	sameOutput := flag("dependency_reproduces_identical_output")
-	depHasOutput := flag("dependency_has_outputs")
+	depOutKind := sym.Choice("dependency_output", 3) // 0 none, 1 a file, 2 a directory (two files, one nested)
+	depHasOutput := depOutKind != 0
 	mode := sym.Choice("mode", 2)
 	dOut := "v1"
 	mkGraph := func(dCommand string) (d *model.Target, tt *model.Target, nodes []model.BuildNode) {
-		if depHasOutput {
+		if depOutKind == 2 {
+			d = fileTarget("d", dCommand)
+			d.Outputs = append(d.Outputs, model.NewOutput("dir", "dd"))
+		} else if depHasOutput {
 			d = fileTarget("d", dCommand, "d.txt")
 		} else {
 			d = fileTarget("d", dCommand)
@@ -99,8 +103,17 @@ func VerifC02_cutoff_and_C01_dep() {
 		return
 	}
 	_ = os.WriteFile(wsPath("p/src.txt"), []byte("s1"), 0644)
-	cmdModel["build-d"] = &cmdBehaviour{writes: map[string]string{"p/d.txt": dOut}}
-	cmdModel["build-d-edited"] = &cmdBehaviour{writes: map[string]string{"p/d.txt": dOut}}
+	dFile := "p/d.txt"
+	if depOutKind == 2 {
+		dFile = "p/dd/sub/d.txt"
+	}
+	for _, c := range []string{"build-d", "build-d-edited"} {
+		cmdModel[c] = &cmdBehaviour{writes: map[string]string{dFile: dOut}}
+		if depOutKind == 2 {
+			cmdModel[c].mkdirs = []string{"p/dd/sub"}
+			cmdModel[c].writes["p/dd/const.txt"] = "same"
+		}
+	}
 	cmdModel["build-t"] = &cmdBehaviour{writes: map[string]string{"p/t.txt": "t"}}
 	runAll := func(p *process, nodes []model.BuildNode) error {
 		for _, n := range nodes { // nodes are in dependency order
@@ -118,7 +131,7 @@ func VerifC02_cutoff_and_C01_dep() {
 	// edit: the dependency's command changes (its key changes) ...
 	if !sameOutput {
 		if depHasOutput {
-			cmdModel["build-d-edited"].writes["p/d.txt"] = "v2"
+			cmdModel["build-d-edited"].writes[dFile] = "v2"
 		} else {
 			// an output-less dependency exposes its own change hash: edit its input instead
 			_ = os.WriteFile(wsPath("p/src.txt"), []byte("s2"), 0644)
